@@ -13,6 +13,18 @@ import (
 )
 
 func init() {
+	propConfigs["C14"] = &propConfig{
+		level: "proof",
+		extras: func(e *Engine, tier string, seed int) []ExtraResult {
+			out := e.tableRun("xmss", "xmss/table_test.go.txt", 1)
+			return append(out, e.tableRun("misc", "misc/table_test.go.txt", 2)...)
+		},
+		trusted: []string{
+			"T7 termination of the rejection-sampling loops (polyUniform, polyChallenge inside dilithium.Verify) depends on XOF output and is assumed; every other loop has a proved variant",
+			"T8 callers pass non-nil pointers (a nil *[N]uint8 is not 'bytes')",
+			"no object of 2^40 bytes or more exists in the process (slice/string lengths are bounded by 2^40)",
+		},
+	}
 	propConfigs["C12"] = &propConfig{
 		level: "proof",
 		extras: func(e *Engine, tier string, seed int) []ExtraResult {
@@ -31,6 +43,16 @@ func init() {
 			"NTT product = negacyclic product for ALL polynomials is obtained as: Z_q-(bi)linearity by linear-form typing of the real function bodies (linform back end, relies on montgomeryReduce's discharged contract) + exhaustive evaluation of the real code on all 256 basis vectors / 65536 basis pairs (table back end); the step 'a (bi)linear map is determined by its values on a basis' is ordinary algebra and is not mechanised",
 		},
 	}
+}
+
+func (e *Engine) tableRun(pkgDir, harness string, want int) []ExtraResult {
+	t0 := time.Now()
+	txt, err := e.runOverlayTest(pkgDir, map[string]string{pkgDir + "/zz_verif_table_test.go": readHarness(harness)}, "TestVerifTable", 120)
+	rs := parseTable(txt, "table", time.Since(t0).Seconds())
+	if len(rs) != want {
+		rs = append(rs, ExtraResult{Name: pkgDir + "-table", Backend: "table", OK: false, Detail: fmt.Sprintf("table harness did not report %d facts (err=%v): %s", want, err, tailStr(txt, 600))})
+	}
+	return rs
 }
 
 func tailStr(s string, n int) string {
